@@ -184,7 +184,9 @@ class Check(PropCheck):
             chk('branch score after rescaling', ('kf 1', 0, True), kf2 * Fraction(f) ** 2, sqrt=True)
         if kind == 'reorder':
             v = vals.get(('wrf 1', 0, False))
-            if v and v[1][0] == 'ok' and vf.fl(v[1][1]) != 0.0:
+            # exact (dyadic) lengths: exactly zero; inexact lengths: a split carried by several branches (unary chains, the two root
+            # branches) is summed in arena order, which a reordering changes - zero up to the rounding of those sums
+            if v and v[1][0] == 'ok' and (vf.fl(v[1][1]) != 0.0 if not tol else abs(vf.fl(v[1][1])) > 1e-12 * case.meta.get('abs_scale', 1.0)):
                 bad.append((v[0], 'weighted RF against a reordering of itself is not zero'))
         for key in (('cmp_topo 1', 0, False), ('cmp_topo 0', 1, False)):
             ct = vals.get(key)
